@@ -29,7 +29,7 @@ import (
 // digest (known key) and signatures constructed by public-key recovery with r on its boundaries (recid 2/3 reachable).
 // Every object × every transform (all 520 single-bit flips, s->n-s, r->r+n, recid changes, r<->s, null, length changes)
 // is judged by four real functions against the reference: accept <=> textbook-valid for that key AND s <= h AND recid < 4.
-// Part B (transaction level): four signed fixture transactions × every single-bit flip of the encoding, byte
+// Part B (transaction level): three signed fixture transactions (pay+change, merge, split) × every single-bit flip of the encoding, byte
 // extension/truncation, and ~40 structured third-party edits (with and without recomputing the unsigned header fields):
 // nothing whose bytes differ may pass VerifySingleTxnHardConstraints against the same unspent outputs.
 // Part C (block header level): every bit flip of a signed header / its signature must fail SignedBlock.VerifySignature; every
@@ -569,14 +569,14 @@ func c10(r *engine.Run) {
 		samples = append(samples, c10case{Object: o.Name, PubKey: hex.EncodeToString(o.pk[:]), Digest: hex.EncodeToString(o.z[:]), Sig: hex.EncodeToString(o.sig[:]), Transform: "identity"})
 	}
 	r.Finish(engine.Coverage{
-		"evaluations":           evals + txEvals + blkEvals,
-		"signature_evaluations": evals,
+		"evaluations":             evals + txEvals + blkEvals,
+		"signature_evaluations":   evals,
 		"transaction_evaluations": txEvals,
-		"block_evaluations":     blkEvals,
-		"distinct_nontrivial":   nontriv.Len() + txNontriv + blkNontriv,
-		"rule":                  "distinct transformed objects whose bytes differ from the valid base object (signature level: per key/digest; transaction / block level: distinct mutated encodings)",
-		"exhaustive":            true,
-		"outcome_histogram":     hist,
+		"block_evaluations":       blkEvals,
+		"distinct_nontrivial":     nontriv.Len() + txNontriv + blkNontriv,
+		"rule":                    "distinct transformed objects whose bytes differ from the valid base object (signature level: per key/digest; transaction / block level: distinct mutated encodings)",
+		"exhaustive":              true,
+		"outcome_histogram":       hist,
 		"alphabet": map[string]interface{}{"keys": len(keys), "digests": len(digests), "signature_objects": len(objs), "objects_with_all_bit_flips": len(flipObjs),
 			"signature_transforms_applied": nTransforms, "s_boundary_values": len(sBoundary)},
 		"samples": samples,
@@ -641,7 +641,9 @@ func c10Transactions(r *engine.Run) (int64, int, map[string]int) {
 	hist := engine.NewCounter()
 	distinct := engine.NewSet()
 	var evals int64
-	out := func(k int, coins, hours uint64) mtx.Out { return mtx.Out{Addr: addr21(fixKeys[k].Addr), Coins: coins, Hours: hours} }
+	out := func(k int, coins, hours uint64) mtx.Out {
+		return mtx.Out{Addr: addr21(fixKeys[k].Addr), Coins: coins, Hours: hours}
+	}
 	in := func(i int) [32]byte { return [32]byte(list[i].ux.Hash()) }
 	type base struct {
 		name string
